@@ -243,18 +243,51 @@ func VerifDumpContainer(sub *Subscriber) (string, string) {
 type VerifRecorder struct {
 	mu  sync.Mutex
 	log []string
+	// one-shot: the next callback reports on entered and waits for release (a slow listener)
+	entered chan struct{}
+	release chan struct{}
 }
 
 func (r *VerifRecorder) OnAdd(kv internal.KV) {
 	r.mu.Lock()
 	r.log = append(r.log, "+"+VerifKeyID(kv.Key)+":"+VerifValID(kv.Val))
 	r.mu.Unlock()
+	r.pause()
 }
 
 func (r *VerifRecorder) OnDelete(kv internal.KV) {
 	r.mu.Lock()
 	r.log = append(r.log, "-"+VerifKeyID(kv.Key))
 	r.mu.Unlock()
+	r.pause()
+}
+
+// BlockNext arms the one-shot pause; the returned channels: entered (receive once), release (close).
+func (r *VerifRecorder) BlockNext() (entered, release chan struct{}) {
+	r.mu.Lock()
+	defer r.mu.Unlock()
+	r.entered, r.release = make(chan struct{}), make(chan struct{})
+	return r.entered, r.release
+}
+
+// Disarm cancels BlockNext; false: a callback has already taken the pause (it will report on entered).
+func (r *VerifRecorder) Disarm() bool {
+	r.mu.Lock()
+	defer r.mu.Unlock()
+	armed := r.entered != nil
+	r.entered, r.release = nil, nil
+	return armed
+}
+
+func (r *VerifRecorder) pause() {
+	r.mu.Lock()
+	en, rel := r.entered, r.release
+	r.entered, r.release = nil, nil
+	r.mu.Unlock()
+	if en != nil {
+		en <- struct{}{}
+		<-rel
+	}
 }
 
 func (r *VerifRecorder) Take() string {
@@ -272,6 +305,56 @@ type VerifSession struct {
 	Key       string
 	Prefix    string
 	Rec       *VerifRecorder
+	Late      *Subscriber // a subscriber that joined the existing watch later (ops join / joinmid)
+	Dead      bool        // cluster.reload deadlocked: the cluster is unusable, the rest of the section is skipped
+}
+
+// reload runs cluster.reload; false: it did not return (it waits, holding the cluster lock, for a watch
+// goroutine that needs this lock).  `release` (may be nil) is closed after a grace period in which a reload that
+// does not have to wait for the slow listener would have finished.
+func (s *VerifSession) reload(release chan struct{}) bool {
+	done := make(chan struct{})
+	go func() {
+		internal.VerifReload(s.Endpoints)
+		close(done)
+	}()
+	if release != nil {
+		select {
+		case <-done:
+		case <-time.After(15 * time.Millisecond):
+		}
+		close(release)
+	}
+	select {
+	case <-done:
+		return true
+	case <-time.After(time.Second):
+		s.Dead = true
+		return false
+	}
+}
+
+// LateObs prints the late joiner's view: ` late=<values> lmap=<k:v,…>` (empty before it joined).
+func (s *VerifSession) LateObs() string {
+	if s.Dead {
+		return " dead=1"
+	}
+	if s.Late == nil {
+		return ""
+	}
+	_, mp := VerifDumpContainer(s.Late)
+	return " late=" + VerifValIDs(s.Late.Values()) + " lmap=" + mp
+}
+
+func (s *VerifSession) Close() {
+	if s.Dead {
+		return
+	}
+	if s.Late != nil {
+		s.Late.Close()
+		s.Late = nil
+	}
+	s.Detach()
 }
 
 var verifSessionSeq int
@@ -281,7 +364,8 @@ func VerifNewSession() *VerifSession {
 	e := VerifInstallEtcd()
 	verifSessionSeq++
 	key := fmt.Sprintf("verif.rpc.%d", verifSessionSeq)
-	s := &VerifSession{Etcd: e, Endpoints: []string{"etcd-verif:2379"}, Key: key, Prefix: key + "/", Rec: &VerifRecorder{}}
+	// a cluster of its own per session: a cluster that deadlocked (see reloadmid) is left behind
+	s := &VerifSession{Etcd: e, Endpoints: []string{fmt.Sprintf("etcd-verif-%d:2379", verifSessionSeq)}, Key: key, Prefix: key + "/", Rec: &VerifRecorder{}}
 	e.SetSnapshot(s.Prefix, nil)
 	return s
 }
@@ -316,6 +400,9 @@ func verifEvent(prefixKey string, tok string) *clientv3.Event {
 // Exec performs one registry-side operation of the line protocol and returns once the code under
 // test has handled it.  ok=false: not a registry operation.
 func (s *VerifSession) Exec(op []string) bool {
+	if s.Dead {
+		return true
+	}
 	switch op[0] {
 	case "put":
 		s.Etcd.Push(s.Prefix, clientv3.WatchResponse{Events: []*clientv3.Event{verifEvent(s.Key, "p:"+op[1]+":"+op[2])}})
@@ -336,6 +423,99 @@ func (s *VerifSession) Exec(op []string) bool {
 		s.Etcd.Push(s.Prefix, clientv3.WatchResponse{CompactRevision: 1, Canceled: op[0] == "reloadc"})
 		s.Etcd.AwaitWatch(s.Prefix)
 		s.Etcd.Sync(s.Prefix)
+	case "connreload":
+		// connection-state change: cluster.reload cancels every watch, waits for the watch goroutines and
+		// starts new ones (load -> handleChanges, then watch); whatever happened meanwhile is in the snapshot only
+		s.Etcd.SetSnapshot(s.Prefix, VerifParseKVs(s.Key, op[1:]))
+		if !s.reload(nil) {
+			return true
+		}
+		s.Etcd.AwaitWatch(s.Prefix)
+		s.Etcd.Sync(s.Prefix)
+	case "reloadmid":
+		// reloadmid p:<k>:<v> d:<k> … / <k>:<v> …   the connection state changes while a watch response is
+		// being handled (a listener is slow in its callback for the first event)
+		var evs []*clientv3.Event
+		i := 1
+		for ; i < len(op) && op[i] != "/"; i++ {
+			evs = append(evs, verifEvent(s.Key, op[i]))
+		}
+		s.Etcd.SetSnapshot(s.Prefix, VerifParseKVs(s.Key, op[i+1:]))
+		entered, release := s.Rec.BlockNext()
+		go s.Etcd.Push(s.Prefix, clientv3.WatchResponse{Events: evs})
+		select {
+		case <-entered:
+		case <-time.After(500 * time.Millisecond):
+			// no listener callback for the first event (only a changed tree does that): reload without a pause
+			if s.Rec.Disarm() {
+				release = nil
+			} else {
+				<-entered
+			}
+		}
+		if !s.reload(release) {
+			return true
+		}
+		s.Etcd.AwaitWatch(s.Prefix)
+		s.Etcd.Sync(s.Prefix)
+	case "join":
+		// a second subscriber on the same key: Registry.Monitor replays the current values to it
+		if s.Late != nil {
+			panic("verif: one late joiner per section")
+		}
+		late, err := NewSubscriber(s.Endpoints, s.Key)
+		if err != nil {
+			panic(err)
+		}
+		s.Late = late
+	case "joinmid":
+		// one watch response with several events; a listener is slow in its callback for the first event;
+		// meanwhile a second subscriber joins.  (With the notifyLock the joiner waits for the response to be
+		// finished: the listener is released after a grace period in which an unsynchronised join completes.)
+		if s.Late != nil {
+			panic("verif: one late joiner per section")
+		}
+		var evs []*clientv3.Event
+		for _, t := range op[1:] {
+			evs = append(evs, verifEvent(s.Key, t))
+		}
+		entered, release := s.Rec.BlockNext()
+		handled := make(chan struct{})
+		go func() {
+			s.Etcd.Push(s.Prefix, clientv3.WatchResponse{Events: evs})
+			s.Etcd.Sync(s.Prefix)
+			close(handled)
+		}()
+		mid := false
+		select {
+		case <-entered:
+			mid = true
+		case <-handled:
+			// the response was handled without any listener callback (nothing to join in the middle of)
+			if !s.Rec.Disarm() {
+				<-entered
+				mid = true
+			}
+		}
+		joined := make(chan *Subscriber)
+		go func() {
+			late, err := NewSubscriber(s.Endpoints, s.Key)
+			if err != nil {
+				panic(err)
+			}
+			joined <- late
+		}()
+		if mid {
+			select {
+			case s.Late = <-joined:
+			case <-time.After(15 * time.Millisecond):
+			}
+			close(release)
+		}
+		if s.Late == nil {
+			s.Late = <-joined
+		}
+		<-handled
 	case "cancel":
 		// watch cancelled for another reason: re-watch without reload
 		s.Etcd.Push(s.Prefix, clientv3.WatchResponse{Canceled: true})
@@ -420,7 +600,39 @@ func VerifC13Gen(r *verifh.Rng, nsecQuick, nsecThorough int, bigEvery int) []ver
 			ops = append(ops, strings.TrimSpace("reload "+strings.Join(initial, " ")))
 		}
 		nops := r.Range(3, verifh.Scale(14, 30))
+		joined := false
 		for j := 0; j < nops; j++ {
+			if !joined && r.Chance(1, 7) {
+				// a second subscriber joins the watch: between two responses, or in the middle of one
+				joined = true
+				if r.Chance(1, 2) {
+					ops = append(ops, "join")
+				} else {
+					n := r.Range(2, 4)
+					toks := []string{"joinmid"}
+					for b := 0; b < n; b++ {
+						if k := r.Intn(nk); r.Chance(1, 2) {
+							v := r.Intn(nv)
+							cur[k] = v
+							toks = append(toks, fmt.Sprintf("p:%d:%d", k, v))
+						} else {
+							if len(cur) > 0 && r.Chance(2, 3) {
+								// a key that is registered
+								keys := make([]int, 0, len(cur))
+								for kk := range cur {
+									keys = append(keys, kk)
+								}
+								sort.Ints(keys)
+								k = keys[r.Intn(len(keys))]
+							}
+							delete(cur, k)
+							toks = append(toks, fmt.Sprintf("d:%d", k))
+						}
+					}
+					ops = append(ops, strings.Join(toks, " "))
+				}
+				continue
+			}
 			switch x := r.Intn(100); {
 			case x < 40:
 				k, v := r.Intn(nk), r.Intn(nv)
@@ -448,14 +660,35 @@ func VerifC13Gen(r *verifh.Rng, nsecQuick, nsecThorough int, bigEvery int) []ver
 					}
 				}
 				ops = append(ops, strings.Join(toks, " "))
-			case x < 94:
+			case x < 91:
 				snap := snapshot(cur)
 				for k := range cur {
 					delete(cur, k)
 				}
 				applySnap(cur, snap)
-				ops = append(ops, strings.TrimSpace(r.PickS("reload", "reloadc")+" "+strings.Join(snap, " ")))
-			case x < 97:
+				ops = append(ops, strings.TrimSpace(r.PickS("reload", "reloadc", "connreload", "connreload")+" "+strings.Join(snap, " ")))
+			case x < 93:
+				// the connection state changes while a response is being handled
+				n := r.Range(2, 3)
+				toks := []string{"reloadmid"}
+				for b := 0; b < n; b++ {
+					if r.Chance(2, 3) {
+						k, v := r.Intn(nk), r.Intn(nv)
+						cur[k] = v
+						toks = append(toks, fmt.Sprintf("p:%d:%d", k, v))
+					} else {
+						k := r.Intn(nk)
+						delete(cur, k)
+						toks = append(toks, fmt.Sprintf("d:%d", k))
+					}
+				}
+				snap := snapshot(cur)
+				for k := range cur {
+					delete(cur, k)
+				}
+				applySnap(cur, snap)
+				ops = append(ops, strings.Join(append(append(toks, "/"), snap...), " "))
+			case x < 96:
 				ops = append(ops, "cancel")
 			default:
 				ops = append(ops, "closech")
